@@ -75,4 +75,22 @@ theorem shape_perm_of_fits {o : Orientation} {a b : Obj} (ho : o.WF a.pardim)
   rw [map_getD_range' b.shape 0 hb] at this
   exact this
 
+theorem compute_complete (a b : Obj) (hb : b.shape.length = b.pardim)
+    (hp : a.pardim = b.pardim) (hd : a.dimension = b.dimension)
+    (hex : ∃ o : Orientation, o.WF a.pardim ∧ Fits o a b) :
+    ∃ o', Orientation.compute a b = .ok o' := by
+  obtain ⟨o, ho, hf⟩ := hex
+  have hpre : PreOK a b := ⟨hp, hd, shape_perm_of_fits ho (by rw [hb, hp]) hf⟩
+  have hsome : ((Orientation.all a.pardim).find? (fitsB a b)).isSome := by
+    rw [List.find?_isSome]
+    exact ⟨o, (Orientation.mem_all _ _).2 ho, hf⟩
+  obtain ⟨o', ho'⟩ := Option.isSome_iff_exists.1 hsome
+  exact ⟨o', (compute_ok_iff a b o').2 ⟨hpre, ho'⟩⟩
+
+theorem compute_sound (a b : Obj) (o : Orientation) (h : Orientation.compute a b = .ok o) :
+    o.WF a.pardim ∧ Fits o a b ∧ a.pardim = b.pardim ∧ a.dimension = b.dimension := by
+  obtain ⟨hpre, hfind⟩ := (compute_ok_iff a b o).1 h
+  exact ⟨(Orientation.mem_all _ _).1 (List.mem_of_find?_eq_some hfind), List.find?_some hfind,
+    hpre.1, hpre.2.1⟩
+
 end Splipy.MP
